@@ -656,7 +656,10 @@ func c04HasSeqTie(v interface{}) bool {
 				seenA[k] = true
 			}
 		}
-		for _, e := range x {
+		for k, e := range x {
+			if k == "#comment" || k == "#directive" || k == "#procinst" || k == "#attr" {
+				continue // their entries are not sorted
+			}
 			if c04HasSeqTie(e) {
 				return true
 			}
